@@ -7,10 +7,13 @@ import pipeline
 import talgen
 
 PID = 'C01'
-PROOF_MODULES = ['ChamProofs.Props.C01', 'ChamProofs.Props.C01Perm', 'ChamProofs.Props.C01Sem']
+PROOF_MODULES = ['ChamProofs.Props.C01', 'ChamProofs.Props.C01Perm', 'ChamProofs.Props.C01Sem', 'ChamProofs.Fuel',
+                 'ChamProofs.Props.C01Spec']
 THEOREMS = ['ChamVerif.C01_wrapOrder_observed', 'ChamVerif.C01_order', 'ChamVerif.applyWrappers_perm', 'ChamVerif.nsGet_perm',
             'ChamVerif.nsGet_stmtPerm', 'ChamVerif.prepare_stmtPerm', 'ChamVerif.C01_element_order', 'ChamVerif.C01_program_order',
-            'ChamVerif.parseTag_wf', 'ChamVerif.C01_default_keeps', 'ChamVerif.C01_content_value', 'ChamVerif.C01_none_removes']
+            'ChamVerif.parseTag_wf', 'ChamVerif.C01_default_keeps', 'ChamVerif.C01_content_value', 'ChamVerif.C01_none_removes',
+            'ChamVerif.Fuel.fuel_mono', 'ChamVerif.Fuel.eval_fuel_ok', 'ChamVerif.wrappers_shape', 'ChamVerif.elementPost_tal',
+            'ChamVerif.C01_element_semantics', 'ChamVerif.C01_element_ok', 'ChamVerif.C01_element_raised']
 LEVEL_TEXT = ('Proved in Lean: the nesting order of the statement nodes on one element is the one observed on the real MacroProgram in this '
               'run (C01_wrapOrder_observed, regenerated probe), in that order definitions precede every guard and condition precedes repeat '
               '(C01_order), the wrappers are applied by kind, not by the order they were collected (applyWrappers_perm), and statement '
@@ -24,12 +27,23 @@ LEVEL_TEXT = ('Proved in Lean: the nesting order of the statement nodes on one e
               'builder for the same records; that positions only reach error locations is left to correspondence. On the interpreter, for the '
               'node _make_content_node builds for tal:content / tal:replace, any expression, default content, scope and state: the default '
               'marker renders exactly the original content, evaluated once (C01_default_keeps); any other value replaces it by its escaped or '
-              'converted string form without evaluating the original (C01_content_value); None emits nothing (C01_none_removes). The whole '
+              'converted string form without evaluating the original (C01_content_value); None emits nothing (C01_none_removes). '
+              'Refinement to a statement semantics: Spec.specElement (lean/ChamVerif/Spec.lean) says what one element renders, statement by '
+              'statement in the prescribed order - definitions (attrs, then each tal:define clause, locals restored afterwards), tal:case, '
+              'tal:condition, tal:repeat (once per item, separator, loop variable restored), tal:switch, tal:replace, tal:omit-tag with the '
+              'start/end tags, tal:content - and C01_element_semantics proves, for every element of that fragment (children arbitrary), every '
+              'scope and state, that whenever the interpreter reaches a verdict on the node the program builder assembles (elementPost, the '
+              'second half of visit_element) it is the verdict of specElement: same output, scope, logs or exception (C01_element_ok / '
+              '_raised); wrappers_shape: the nesting is define > case > condition > repeat > switch > replace > tags > content. fuel_mono '
+              '(whole interpreter, all node kinds): the fuel argument of the interpreter is only a termination device - a verdict reached with '
+              'fuel f is reached with every larger fuel - so the fuel-indexed theorems speak about the one rendering of a node. The whole '
               'pipeline model (tokens, elements, nodes, interpreter) is tied to the code by end-to-end correspondence on generated '
               'templates x bindings (output and evaluation log); the language rules themselves are judged on the implementation by an '
               'independent constructive reference semantics and by the attribute-permutation metamorphic oracle.')
 LEVEL_NOTE = ('Trusted: Lean kernel; probe extraction; that the interpreter models the generated Python (validated by correspondence). '
-              'A refinement theorem "interpreter = reference semantics" is not proved; the reference semantics lives in the harness.')
+              'The refinement theorem covers the TAL statements of one element (no METAL / i18n / tal:on-error on the element itself); the start tag '
+              'with its attributes and the expressions are evaluated by the same functions on both sides (C07 / C04 speak about those); the '
+              'harness keeps an independent constructive reference for the implementation side.')
 RULE = ('(a) talgen templates (every statement kind, nesting <= 3, 11 value classes) for model/implementation correspondence; '
         '(b) constructive family: one element with every subset of {define, condition, repeat, content|replace, omit-tag, attributes}, '
         'values None/default/falsy/truthy/str, expected text computed from the language rules; (c) 3 random permutations of the statement '
